@@ -1,13 +1,20 @@
 ----------------------------- MODULE Gen_Decomp -----------------------------
 EXTENDS Decomp, SequencesExt, Json, IOUtils
-CONSTANTS MaxN, MaxNLen
+CONSTANTS MaxN, MaxNLen, MaxNHist, MinLen
 All == UNION { Topos(n) : n \in 1 .. MaxN }
 CDecomp == { [op |-> "decomp", P |-> P] : P \in All }
 CBT     == { [op |-> "branch_tree", P |-> P] : P \in All }
 CNode   == UNION { { [op |-> "node_branch", P |-> P, i |-> i] : i \in { j \in Nodes(P) : ~IsFurc(P, j) } } : P \in All }
-CLong   == UNION { { [op |-> "longest_path", P |-> P, el |-> el] : el \in { e \in [1 .. Len(P) -> 1 .. 2] : e[1] = 1 } }
+CLong   == UNION { { [op |-> "longest_path", P |-> P, el |-> el] : el \in { e \in [1 .. Len(P) -> MinLen .. 2] : e[1] = 1 } }
                    : P \in UNION { Topos(n) : n \in 2 .. MaxNLen } }
-AllSeq   == SetToSeq(CDecomp \cup CBT \cup CNode \cup CLong)
+\* histories: the tree is first queried with topology pre, then node ed[1] is re-parented in place to ed[2] (giving P), then queried again;
+\* the answers after the edit are judged against P (Decomp.tla is a function of the current parent relation only)
+Pre == UNION { Topos(n) : n \in 2 .. MaxNHist }
+CHist   == UNION { { [op |-> o, P |-> Reparent(P0, e[1], e[2]), pre |-> P0, ed |-> e] : e \in Edits(P0), o \in {"decomp", "branch_tree"} } : P0 \in Pre }
+CHistN  == UNION { UNION { { [op |-> "node_branch", P |-> Reparent(P0, e[1], e[2]), pre |-> P0, ed |-> e, i |-> i]
+                             : i \in { j \in Nodes(P0) : ~IsFurc(Reparent(P0, e[1], e[2]), j) } } : e \in Edits(P0) } : P0 \in Pre }
+ASSUME \A P0 \in Pre : \A e \in Edits(P0) : WF(Reparent(P0, e[1], e[2]))        \* the edit keeps the tree well formed
+AllSeq   == SetToSeq(CDecomp \cup CBT \cup CNode \cup CLong \cup CHist \cup CHistN)
 Numbered == [k \in 1 .. Len(AllSeq) |-> [cid |-> k] @@ AllSeq[k]]
 VARIABLE done
 Init == done = ndJsonSerialize(IOEnv.OUT, Numbered)
